@@ -30,7 +30,8 @@ func init() {
 }
 
 // ---- child: emulator host with a control channel -------------------------------------------------------------
-// stdin commands:  arm <point> <n> | disarm | quit      stdout: "ADDR <addr>", "STOPPED <point>", "BYE"
+// stdin commands:  arm <point> <n> | disarm | hold <point> | release | quit
+// stdout: "ADDR <addr>", "STOPPED <point>", "HOLDING <point>", "HELD <point>" (a request is parked there), "BYE"
 
 func childServer(args []string) {
 	engine, dir := args[0], args[1]
@@ -49,7 +50,15 @@ func childServer(args []string) {
 		out.Flush()
 		outMu.Unlock()
 	}
+	var held atomic.Value // string point: the next request passing it is parked (only that request) until "release"
+	held.Store("")
+	var gate atomic.Value // chan struct{}
 	bttest.VerifSetHandler(func(point string, key []byte) {
+		if p, _ := held.Load().(string); p != "" && p == point && held.CompareAndSwap(p, "") {
+			g := gate.Load().(chan struct{})
+			say("HELD " + point)
+			<-g
+		}
 		if p, _ := armed.Load().(string); p != "" && p == point {
 			if atomic.AddInt64(&armedN, -1) == 0 {
 				say("STOPPED " + point)
@@ -82,6 +91,20 @@ func childServer(args []string) {
 		case "disarm":
 			armed.Store("")
 			say("DISARMED")
+		case "hold":
+			gate.Store(make(chan struct{}))
+			held.Store(f[1])
+			say("HOLDING " + f[1])
+		case "release":
+			held.Store("")
+			if g, _ := gate.Load().(chan struct{}); g != nil {
+				select {
+				case <-g:
+				default:
+					close(g)
+				}
+			}
+			say("RELEASED")
 		case "quit":
 			srv.S.Close()
 			say("BYE")
@@ -432,7 +455,7 @@ func c08VerifyImage(tag, image string, candidates []c14Registry) string {
 }
 
 func runC08(run *common.Run) {
-	run.Rule = "case = one crash image of the on-disk storage directory of a child emulator process driven by a generated admin+data program (CreateTable with GC rules, MutateRow, DropRowRange prefix/all, ModifyColumnFamilies create/update/drop and multi-modification requests, DeleteTable, re-create): (boundary) the process is frozen with SIGSTOP between two requests and the directory copied; (point) the process freezes itself at an instrumented point inside SetTableMeta / Create / Clear / the row-by-row purge of a dropped family while a request is in flight, the directory is copied and the process killed; (cycle) after such a kill the live directory is restarted and the program continues, up to 5 times; (clean) clean Server.Close stop; (real) the real cbtemulator -dir binary killed with SIGKILL between requests and restarted; (syskill) the child runs under strace and is killed at its N-th unlinkat / rename / mkdir system call, N = 1, 2, ..., over one program in which every fourth request clears a table, and at its N-th write / pwrite64 system call over a program that stores 33-100 KiB values (journal records spanning several write calls), then restarted. Each image is verified by starting a fresh emulator process on a private copy: it must come up, and ListTables/GetTable/full scans/NotFound probes must equal the acknowledged model, the in-flight request being wholly applied or wholly absent. Non-trivial = image taken when the model held at least one table with rows and either a request was in flight or an earlier request had removed something (rows, family, table); distinct by image."
+	run.Rule = "case = one crash image of the on-disk storage directory of a child emulator process driven by a generated admin+data program (CreateTable with GC rules, MutateRow, DropRowRange prefix/all, ModifyColumnFamilies create/update/drop and multi-modification requests, DeleteTable, re-create): (boundary) the process is frozen with SIGSTOP between two requests and the directory copied; (point) the process freezes itself at an instrumented point inside SetTableMeta / Create / Clear / the row-by-row purge of a dropped family while a request is in flight, the directory is copied and the process killed; (cycle) after such a kill the live directory is restarted and the program continues, up to 5 times; (clean) clean Server.Close stop; (real) the real cbtemulator -dir binary killed with SIGKILL between requests and restarted; (syskill) the child runs under strace and is killed at its N-th unlinkat / rename / mkdir system call, N = 1, 2, ..., over one program in which every fourth request clears a table, and at its N-th write / pwrite64 system call over a program that stores 33-100 KiB values (journal records spanning several write calls), then restarted. (adminrace) a ModifyColumnFamilies request is parked inside its metadata write while DeleteTable (and a re-creation) is acknowledged, then released; running process and a restart must agree with a serial order. Each image is verified by starting a fresh emulator process on a private copy: it must come up, and ListTables/GetTable/full scans/NotFound probes must equal the acknowledged model, the in-flight request being wholly applied or wholly absent. Non-trivial = image taken when the model held at least one table with rows and either a request was in flight or an earlier request had removed something (rows, family, table); distinct by image."
 	run.Assumptions = []string{"process death only (SIGSTOP image = what kill -9 leaves: completed syscalls persist); power loss / unsynced page cache is out of scope", "crash points = request boundaries + the instrumented points; kills inside leveldb's own write path are not enumerated"}
 	nprog := run.N(12, 300)
 	scratch, err := os.MkdirTemp("", "verif-c08-")
@@ -441,6 +464,13 @@ func runC08(run *common.Run) {
 		return
 	}
 	defer os.RemoveAll(scratch)
+	if run.WantSub("adminrace") {
+		common.Parallel(run.N(12, 120), 6, func(p int) {
+			if run.Want("adminrace", p) && !run.TooMany() {
+				c08AdminRace(run, p, filepath.Join(scratch, fmt.Sprintf("ar%d", p)))
+			}
+		})
+	}
 	run.Canary("KF03", func() (bool, string) { return c08DropFamilyCanary(filepath.Join(scratch, "kf03")) })
 	j := common.NewJournal("C08")
 	if run.WantSub("real") {
@@ -686,6 +716,186 @@ func c08DropFamilyCanary(base string) (bool, string) {
 	}
 	msg = c08VerifyImage("kf03v", img, []c14Registry{pre, post})
 	return msg != "", msg
+}
+
+// c08AdminRace: one admin request (ModifyColumnFamilies) is parked inside its metadata write - it holds the table's
+// own lock there, nothing else - while DeleteTable (and, in half of the cases, a CreateTable of the same name with
+// other families) is sent and acknowledged; then the parked request goes on. Whatever serial order explains the three
+// answers, the table the DeleteTable removed must not be served afterwards, neither by the running process nor by a
+// fresh process started on the directory.
+func c08AdminRace(run *common.Run, p int, dir string) {
+	_ = os.MkdirAll(dir, 0o777)
+	defer os.RemoveAll(dir)
+	r := run.Rand("C08.adminrace", p)
+	live := filepath.Join(dir, "live")
+	_ = os.MkdirAll(live, 0o777)
+	s, msg := c08Start(fmt.Sprintf("ar%d", p), live)
+	if s == nil {
+		run.Violation("adminrace", p, "cannot start child: "+msg, nil)
+		return
+	}
+	defer func() { s.stop() }()
+	name := drive.TableName(c14Parents[0], "t")
+	drive.CreateTable(s.srv.Admin, c14Parents[0], "t", map[string]*model.GcRule{"f1": nil, "f2": nil})
+	muts := []model.Mut{{Kind: model.SetCell, Fam: "f1", Qual: "q", TS: 1000, Val: "one"}, {Kind: model.SetCell, Fam: "f2", Qual: "q", TS: 1000, Val: "two"}}
+	drive.MutateRow(s.srv.Data, name, "a", muts)
+	var mod *btapb.ModifyColumnFamiliesRequest_Modification
+	var modDesc string
+	var applyMod func(t *model.Table) bool // false: invalid on that table
+	switch r.Intn(3) {
+	case 0:
+		mod = &btapb.ModifyColumnFamiliesRequest_Modification{Id: "x", Mod: &btapb.ModifyColumnFamiliesRequest_Modification_Create{Create: &btapb.ColumnFamily{}}}
+		modDesc = "create x"
+		applyMod = func(t *model.Table) bool {
+			if _, ok := t.Families["x"]; ok {
+				return false
+			}
+			t.Families["x"] = nil
+			return true
+		}
+	case 1:
+		rule := &model.GcRule{Kind: model.GcMaxVersions, N: 2}
+		mod = &btapb.ModifyColumnFamiliesRequest_Modification{Id: "f1", Mod: &btapb.ModifyColumnFamiliesRequest_Modification_Update{Update: &btapb.ColumnFamily{GcRule: drive.GcToProto(rule)}}}
+		modDesc = "update f1=maxversions(2)"
+		applyMod = func(t *model.Table) bool {
+			if _, ok := t.Families["f1"]; !ok {
+				return false
+			}
+			t.Families["f1"] = rule
+			return true
+		}
+	default:
+		mod = &btapb.ModifyColumnFamiliesRequest_Modification{Id: "f2", Mod: &btapb.ModifyColumnFamiliesRequest_Modification_Drop{Drop: true}}
+		modDesc = "drop f2"
+		applyMod = func(t *model.Table) bool {
+			if _, ok := t.Families["f2"]; !ok {
+				return false
+			}
+			delete(t.Families, "f2")
+			for k, row := range t.Rows {
+				delete(row, "f2")
+				t.Commit(k, row)
+			}
+			return true
+		}
+	}
+	recreate := r.Bool()
+	newFams := map[string]*model.GcRule{"g": nil}
+	if r.Bool() {
+		newFams["f1"] = &model.GcRule{Kind: model.GcMaxVersions, N: 5}
+	}
+	steps := []string{"CreateTable(t,{f1,f2}); MutateRow(a)"}
+	fail := func(what string) {
+		run.Violation("adminrace", p, what, map[string]any{"steps": steps})
+	}
+	s.child.send("hold disk.meta.enter")
+	if l, err := s.child.readLine(30 * time.Second); err != nil || !strings.HasPrefix(l, "HOLDING") {
+		fail("control channel: " + fmt.Sprint(l, err))
+		return
+	}
+	modDone := make(chan drive.Status, 1)
+	go func() {
+		ctx, cancel := drive.Ctx()
+		defer cancel()
+		_, err := s.srv.Admin.ModifyColumnFamilies(ctx, &btapb.ModifyColumnFamiliesRequest{Name: name, Modifications: []*btapb.ModifyColumnFamiliesRequest_Modification{mod}})
+		modDone <- drive.StatusOf(err)
+	}()
+	if l, err := s.child.readLine(60 * time.Second); err != nil || !strings.HasPrefix(l, "HELD") {
+		fail("the ModifyColumnFamilies request never reached its metadata write: " + fmt.Sprint(l, err))
+		return
+	}
+	steps = append(steps, "ModifyColumnFamilies(t, "+modDesc+")  [parked inside its metadata write]")
+	// DeleteTable may be answered while the other request is parked, or wait for it: both are legal
+	delDone := make(chan drive.Status, 1)
+	go func() {
+		ctx, cancel := drive.Ctx()
+		defer cancel()
+		_, err := s.srv.Admin.DeleteTable(ctx, &btapb.DeleteTableRequest{Name: name})
+		delDone <- drive.StatusOf(err)
+	}()
+	var delSt, createSt drive.Status
+	delWaited := false
+	select {
+	case delSt = <-delDone:
+	case <-time.After(1500 * time.Millisecond): // scheduling choice, not a verdict
+		delWaited = true
+	}
+	create := func() {
+		if recreate && delSt.OK() {
+			createSt = drive.CreateTable(s.srv.Admin, c14Parents[0], "t", newFams)
+			steps = append(steps, fmt.Sprintf("CreateTable(t,%s) -> %s", famString(newFams), createSt))
+		}
+	}
+	if !delWaited {
+		steps = append(steps, "DeleteTable(t) -> "+delSt.String()+"  [answered while the other request was parked]")
+		create()
+	}
+	s.child.send("release")
+	s.child.readLine(30 * time.Second)
+	var modSt drive.Status
+	select {
+	case modSt = <-modDone:
+	case <-time.After(150 * time.Second):
+		fail("the parked ModifyColumnFamilies request was never answered after its release")
+		return
+	}
+	steps = append(steps, "released: ModifyColumnFamilies -> "+modSt.String())
+	if delWaited {
+		select {
+		case delSt = <-delDone:
+		case <-time.After(150 * time.Second):
+			fail("DeleteTable was never answered although the request it waited for has finished")
+			return
+		}
+		steps = append(steps, "DeleteTable(t) -> "+delSt.String()+"  [waited for the parked request]")
+		create()
+		run.Count("adminrace_delete_waited_for_the_parked_request", 1)
+	}
+	if !delSt.OK() {
+		fail("DeleteTable of an existing table failed: " + delSt.String())
+		return
+	}
+	// admissible final states
+	var cands []c14Registry
+	if !recreate || !createSt.OK() {
+		cands = append(cands, c14Registry{}) // the table is gone, whatever the modification answered
+	} else {
+		fresh := func() *model.Table {
+			t := model.NewTable()
+			for f, g := range newFams {
+				t.Families[f] = g
+			}
+			return t
+		}
+		cands = append(cands, c14Registry{name: fresh()}) // modification ordered before the delete (or failed)
+		if modSt.OK() && !delWaited {
+			if t := fresh(); applyMod(t) {
+				cands = append(cands, c14Registry{name: t}) // modification ordered after the re-creation
+			}
+		}
+	}
+	check := func(srv *drive.Srv) string {
+		var msgs []string
+		for _, reg := range cands {
+			m := c14CheckAll(srv, reg)
+			if m == "" {
+				return ""
+			}
+			msgs = append(msgs, m)
+		}
+		return strings.Join(msgs, " / ")
+	}
+	if m := check(s.srv); m != "" {
+		fail("running process after DeleteTable raced with a parked ModifyColumnFamilies: " + m)
+		return
+	}
+	s.stop()
+	if m := c08VerifyImage(fmt.Sprintf("arv%d", p), live, cands); m != "" {
+		fail("after a restart on the directory: " + m)
+		return
+	}
+	run.Case(common.Hash64("adminrace", fmt.Sprint(steps)), true)
+	run.Count("admin_races", 1)
 }
 
 // c08RealBinary drives the real `cbtemulator -dir` binary (built from /repo by ./check, no hooks): SIGKILL between
